@@ -96,7 +96,7 @@ func init() {
 		e.DeclFun("txDecodeOK", []string{"Bytes"}, "Bool")
 		data := c.t(1)
 		ok := app("txDecodeOK", data)
-		errT := c.x.enc.FreshConst("err", "Int")
+		errT := c.x.enc.FreshConst("maybeerr", "Int")
 		c.st.Assume(eq(eq(errT, "0"), ok))
 		sig := c.cc.Signature()
 		outs := c.ret(TV{T: app("txDecode", data), Ty: sig.Results().At(0).Type()}, TV{T: errT, Ty: tError})
@@ -154,7 +154,7 @@ func init() {
 		e.DeclFun("msgTypeURL", []string{"Iface"}, "Bytes")
 		return c.ret(TV{T: app("msgTypeURL", c.x.asTV(c.st, c.args[0]).T), Ty: tString})
 	})
-	reg("dyn:func(msg interface{ProtoMessage(); Reset(); String() string}) string", "MsgTypeURL is a pure function of the message type", func(c *CallCtx) []Outcome {
+	reg("dyn:G_cosmos_sdk_types_MsgTypeURL", "MsgTypeURL is a pure function of the message type", func(c *CallCtx) []Outcome {
 		e := c.x.enc
 		e.DeclFun("msgTypeURL", []string{"Iface"}, "Bytes")
 		return c.ret(TV{T: app("msgTypeURL", c.x.asTV(c.st, c.args[1]).T), Ty: tString})
@@ -196,3 +196,44 @@ func (x *Exec) newEpoch() int {
 }
 
 var _ = types.Typ
+
+func init() {
+	reg("github.com/cosmos/cosmos-sdk/types/tx.GetMsgs", "tx.GetMsgs unpacks the Any list into messages: a pure partial function of the list (A-CODEC)", func(c *CallCtx) []Outcome {
+		e := c.x.enc
+		arg := c.tv(0)
+		s := e.Sort(arg.Ty)
+		e.DeclFun("unpackMsgs", []string{s}, "(GSeq Iface)")
+		e.DeclFun("unpackMsgsOK", []string{s}, "Bool")
+		t := app("unpackMsgs", arg.T)
+		c.st.Assume(and(app(">=", app("gseq.len", t), "0"), app("<", app("gseq.len", t), two63)))
+		errT := e.FreshConst("maybeerr", "Int")
+		c.st.Assume(eq(eq(errT, "0"), app("unpackMsgsOK", arg.T)))
+		return c.ret(TV{T: t, Ty: c.resultType(0)}, TV{T: errT, Ty: tError})
+	})
+	reg("github.com/cosmos/cosmos-sdk/codec.Codec.GetMsgV1Signers", "Codec.GetMsgV1Signers returns the signers declared by the message's cosmos.msg.v1.signer option: a pure partial function of the message", func(c *CallCtx) []Outcome {
+		e := c.x.enc
+		e.DeclFun("msgSigners", []string{"Iface"}, "(GSeq Bytes)")
+		e.DeclFun("msgSignersOK", []string{"Iface"}, "Bool")
+		m := c.x.asTV(c.st, c.args[1])
+		t := app("msgSigners", m.T)
+		c.st.Assume(and(app(">=", app("gseq.len", t), "0"), app("<", app("gseq.len", t), two63)))
+		errT := e.FreshConst("maybeerr", "Int")
+		c.st.Assume(eq(eq(errT, "0"), app("msgSignersOK", m.T)))
+		sig := c.cc.Signature()
+		return c.ret(TV{T: t, Ty: sig.Results().At(0).Type()}, c.x.freshTV("msgv2", sig.Results().At(1).Type(), c.st), TV{T: errT, Ty: tError})
+	})
+	reg("github.com/cosmos/cosmos-sdk/types.HasValidateBasic.ValidateBasic", "ValidateBasic is a pure function of the message", func(c *CallCtx) []Outcome {
+		e := c.x.enc
+		e.DeclFun("validateBasicOK", []string{"Iface"}, "Bool")
+		m := c.x.asTV(c.st, c.args[0])
+		errT := e.FreshConst("maybeerr", "Int")
+		c.st.Assume(eq(eq(errT, "0"), app("validateBasicOK", m.T)))
+		return c.ret(TV{T: errT, Ty: tError})
+	})
+	reg("(github.com/cosmos/cosmos-sdk/types.Result).GetEvents", "Result.GetEvents: events produced by the routed handler (opaque)", func(c *CallCtx) []Outcome {
+		return c.ret(ListV{Elems: []Value{TV{T: "opaque_events", Ty: nil}}})
+	})
+	reg("(*github.com/cosmos/cosmos-sdk/types.Result).GetEvents", "Result.GetEvents: events produced by the routed handler (opaque)", func(c *CallCtx) []Outcome {
+		return c.ret(ListV{Elems: []Value{TV{T: "opaque_events", Ty: nil}}})
+	})
+}
